@@ -13,9 +13,11 @@
 //! `Message::from_vec` accepts and `to_vec` re-encodes: the re-encoding decodes to the same
 //! message, and RDATA of types whose names are not compressible is identical octet for octet.
 
+mod ext;
+
 use c01::alphabet::{compressible_type, hn, labels, rdata_alphabet, record_alphabet, wn, Entry as AEntry, Rec};
 use c01::families::{self, HEADER_SHAPES, S};
-use c01::msgs::{edns_variants, tsig_variants};
+use ext::{EdnsSpec, MetaExpect, TsigSpec};
 use c01::names::rdata_names_eq_case;
 use c01::seeds;
 use c01::wirex::{decompress_rdata, noncompressible_name_has_pointer};
@@ -156,15 +158,15 @@ struct XRec {
 struct Alpha {
     entries: Vec<AEntry>,
     levels: [Vec<Rec>; 3],
-    edns: Vec<(&'static str, Edns)>,
-    tsig: Vec<(&'static str, Box<Record<TSIG>>)>,
+    edns: Vec<EdnsSpec>,
+    tsig: Vec<TsigSpec>,
 }
 
 impl Alpha {
     fn new(thorough: bool) -> Alpha {
         let entries = rdata_alphabet(thorough);
         let levels = [record_alphabet(&entries, 0), record_alphabet(&entries, 1), record_alphabet(&entries, 2)];
-        Alpha { entries, levels, edns: edns_variants(), tsig: tsig_variants() }
+        Alpha { entries, levels, edns: ext::edns_specs(), tsig: ext::tsig_specs() }
     }
     fn xrec(&self, level: u8, i: usize) -> XRec {
         let r = &self.levels[level as usize][i];
@@ -228,8 +230,9 @@ impl Spec {
         }
     }
 
-    /// The message and, per section, the expected (type, RFC RDATA) of every record.
-    fn build(&self, al: &Alpha) -> (Message, [Vec<XRec>; 3]) {
+    /// The message, per section the expected (type, RFC RDATA) of every record, and the RFC form
+    /// of the OPT / TSIG records.
+    fn build(&self, al: &Alpha) -> (Message, [Vec<XRec>; 3], MetaExpect) {
         let mt = if self.flags & 1 != 0 { MessageType::Response } else { MessageType::Query };
         let id = [0xbeefu16, 0, 0xffff, 1][(self.flags as usize + self.rcode as usize + self.recs.len()) % 4];
         let mut m = Message::new(id, mt, OpCode::from_u8(self.opcode));
@@ -261,19 +264,24 @@ impl Spec {
         for x in &exp[2] {
             m.add_additional(x.record.clone());
         }
+        let mut meta = MetaExpect::default();
         if self.edns >= 0 {
             // Edns::rcode_high stays 0 as a user leaves it: the encoder has to commit the upper rcode bits
-            m.set_edns(al.edns[self.edns as usize].1.clone());
+            let e = &al.edns[self.edns as usize];
+            m.set_edns(e.build());
+            meta.opt = Some(e.expect(self.rcode));
         }
         if self.tsig >= 0 {
-            m.set_signature(al.tsig[self.tsig as usize].1.clone());
+            let t = &al.tsig[self.tsig as usize];
+            m.set_signature(t.build());
+            meta.tsig = Some(t.expect());
         }
-        (m, exp)
+        (m, exp, meta)
     }
 }
 
 /// Judge one assembled message. `exp`: per section the records with their RFC RDATA.
-fn judge_d1(m: &Message, exp: &[Vec<XRec>; 3], l: &mut Local, case: &dyn Fn() -> Value) {
+fn judge_d1(m: &Message, exp: &[Vec<XRec>; 3], meta: Option<&MetaExpect>, l: &mut Local, case: &dyn Fn() -> Value) {
     l.eval();
     let bytes = match catch(|| m.to_vec()) {
         Err(p) => return l.violation(&format!("panic:{}", vcore::short_loc(&p.loc)), &format!("encoder panicked: {}", p.msg), case),
@@ -351,6 +359,13 @@ fn judge_d1(m: &Message, exp: &[Vec<XRec>; 3], l: &mut Local, case: &dyn Fn() ->
                     &wcase,
                 );
             }
+        }
+    }
+
+    // (a') the OPT and TSIG records against their RFC form
+    if let Some(meta) = meta {
+        if let Some((key, what)) = ext::check_meta(&bytes, &w.additionals[exp[2].len()..], meta) {
+            return l.violation(&key, &what, &wcase);
         }
     }
 
@@ -699,6 +714,28 @@ fn run_block(b: &Block, l: &mut Local) {
 
 fn replay(ctx: &Ctx, case: &Value) {
     ctx.with_local(|l| {
+        if case["dir"].as_u64() == Some(2) && case["large"].is_string() {
+            let al = Alpha::new(case["thorough"].as_bool().unwrap_or(false));
+            let seeds = ext::large_seeds(&al, &[0, 1, 2]);
+            let Some(sd) = seeds.iter().find(|s| Some(s.tag) == case["large"].as_str()) else { return };
+            let mut b = sd.bytes.clone();
+            let e = &case["edit"];
+            match e["kind"].as_str() {
+                Some("window") | Some("sub") => {
+                    let at = e["at"].as_u64().unwrap_or(0) as usize;
+                    for (j, v) in e["bytes"].as_array().cloned().unwrap_or_default().iter().enumerate() {
+                        if at + j < b.len() {
+                            b[at + j] = v.as_u64().unwrap_or(0) as u8;
+                        }
+                    }
+                }
+                Some("cut") => b.truncate(e["at"].as_u64().unwrap_or(0) as usize),
+                _ => {}
+            }
+            let mut t = Tally::default();
+            judge_d2(&b, true, &mut t, l, &|| case.clone());
+            return;
+        }
         if case["dir"].as_u64() == Some(2) {
             let mut t = Tally::default();
             let buf = if let Some(f) = case["family"].as_str() {
@@ -714,16 +751,24 @@ fn replay(ctx: &Ctx, case: &Value) {
                 let v = case["variant"].as_str().unwrap_or("");
                 let v = SWEEPS.iter().find(|s| **s == v).copied().unwrap_or("same-owner");
                 let (m, exp) = sweep(v, case["n"].as_u64().unwrap_or(0) as usize);
-                judge_d1(&m, &exp, l, &|| case.clone());
+                judge_d1(&m, &exp, None, l, &|| case.clone());
             }
             "offset" => {
                 let (m, exp) = offset_case(case["variant"].as_u64().unwrap_or(0) as u8, case["target"].as_u64().unwrap_or(0x3fff) as usize);
-                judge_d1(&m, &exp, l, &|| case.clone());
+                judge_d1(&m, &exp, None, l, &|| case.clone());
+            }
+            "value" => {
+                let v = case["sweep"].as_str().unwrap_or("");
+                if let Some(v) = ext::VALUE_SWEEPS.iter().find(|s| **s == v) {
+                    if let Some((m, exp, meta)) = ext::value_case(v, case["i"].as_u64().unwrap_or(0)) {
+                        judge_d1(&m, &exp, Some(&meta), l, &|| case.clone());
+                    }
+                }
             }
             _ => {
                 let al = Alpha::new(case["thorough"].as_bool().unwrap_or(false));
-                let (m, exp) = Spec::from_json(case).build(&al);
-                judge_d1(&m, &exp, l, &|| case.clone());
+                let (m, exp, meta) = Spec::from_json(case).build(&al);
+                judge_d1(&m, &exp, Some(&meta), l, &|| case.clone());
             }
         }
     });
@@ -802,8 +847,8 @@ fn main() {
         v
     };
     let run_spec = |s: &Spec, l: &mut Local| {
-        let (m, exp) = s.build(&al);
-        judge_d1(&m, &exp, l, &|| s.to_json(thorough));
+        let (m, exp, meta) = s.build(&al);
+        judge_d1(&m, &exp, Some(&meta), l, &|| s.to_json(thorough));
     };
 
     // bodies of 0, 1, 2 records
@@ -929,7 +974,7 @@ fn main() {
         let d = od.get(i);
         let v = SWEEPS[d[0] as usize];
         let (m, exp) = sweep(v, d[1] as usize);
-        judge_d1(&m, &exp, l, &|| json!({"dir": 1, "family": "sweep", "variant": v, "n": d[1]}));
+        judge_d1(&m, &exp, None, l, &|| json!({"dir": 1, "family": "sweep", "variant": v, "n": d[1]}));
         if d[1] == 200 {
             l.sample(json!({"dir": 1, "family": "sweep", "variant": v, "n": 200, "encoded_len": m.to_vec().map(|b| b.len()).unwrap_or(0)}));
         }
@@ -948,9 +993,35 @@ fn main() {
                 }
             }
         }
-        judge_d1(&m, &exp, l, &|| json!({"dir": 1, "family": "offset", "variant": d[0], "target": target}));
+        judge_d1(&m, &exp, None, l, &|| json!({"dir": 1, "family": "offset", "variant": d[0], "target": target}));
     });
 
+    if std::env::var("C02_TIMING").is_ok() { eprintln!("t before value sweeps {:.1}", ctx.elapsed_s()); }
+    // value sweeps: every value of the small fields a message can carry
+    let mut vitems: Vec<(&'static str, u64, u64)> = vec![];
+    for v in ext::VALUE_SWEEPS.iter() {
+        let n = ext::value_sweep_size(v);
+        let mut lo = 0;
+        while lo < n {
+            vitems.push((v, lo, (lo + 2048).min(n)));
+            lo += 2048;
+        }
+    }
+    ctx.set("d1_value_sweep_cases", json!(ext::VALUE_SWEEPS.iter().map(|v| (v.to_string(), ext::value_sweep_size(v))).collect::<std::collections::BTreeMap<_, _>>()));
+    ctx.par_run(vitems.len() as u64, 1, |k, l| {
+        let (v, lo, hi) = vitems[k as usize];
+        for i in lo..hi {
+            match ext::value_case(v, i) {
+                Some((m, exp, meta)) => judge_d1(&m, &exp, Some(&meta), l, &|| json!({"dir": 1, "family": "value", "sweep": v, "i": i})),
+                None => l.outcome("d1:value-without-canonical-representation"),
+            }
+        }
+        if lo == 0 {
+            l.sample(json!({"dir": 1, "family": "value", "sweep": v, "values": ext::value_sweep_size(v)}));
+        }
+    });
+
+    if std::env::var("C02_TIMING").is_ok() { eprintln!("t before d2 {:.1}", ctx.elapsed_s()); }
     // ---- direction 2 -------------------------------------------------------------------------
     let mut blocks: Vec<Block> = vec![];
     let (l1, l_body, l_rd) = if thorough { (3, 7, 6) } else { (2, 6, 5) };
@@ -1001,6 +1072,87 @@ fn main() {
         });
         flush(t, "f3", l);
     });
+    if std::env::var("C02_TIMING").is_ok() { eprintln!("t before f5 {:.1}", ctx.elapsed_s()); }
+    // f5: all 65,536 values of every 16-bit window of one-record messages around the RFC RDATA of
+    // the alphabet. Thorough: every entry, every window from the flags word on. Quick: the first
+    // entry of every type, the windows that start in the first 8 RDATA octets, and for every 8th
+    // seed also the windows of the record's fixed fields (TYPE, CLASS, TTL, RDLENGTH).
+    let mut witems: Vec<(String, Vec<u8>, usize, usize)> = vec![];
+    {
+        let mut seen = std::collections::BTreeSet::new();
+        let mut buf = vec![];
+        let mut k = 0usize;
+        for (tag, t, w) in &rd_seeds {
+            if !thorough && !seen.insert(*t) {
+                continue;
+            }
+            families::message_with_rdata(*t, w, false, &mut buf);
+            let last = buf.len() - 1;
+            let ranges: Vec<(usize, usize)> = if thorough {
+                vec![(2, last)]
+            } else if k % 8 == 0 {
+                vec![(13, last.min(23 + 8))]
+            } else {
+                vec![(23, last.min(23 + 8))]
+            };
+            k += 1;
+            for (lo, hi) in ranges {
+                // slices of 4 windows so that the work spreads over the workers
+                let mut a = lo;
+                while a < hi {
+                    witems.push((tag.clone(), buf.clone(), a, (a + 4).min(hi)));
+                    a += 4;
+                }
+            }
+        }
+    }
+    ctx.set("d2_f5_windows", json!(witems.iter().map(|w| w.3 - w.2).sum::<usize>()));
+    ctx.par_run(witems.len() as u64, 1, |i, l| {
+        let (tag, seed, lo, hi) = &witems[i as usize];
+        ctx.watch(l.worker, || format!("f5 {tag} {lo}..{hi}"));
+        let mut t = Tally::default();
+        families::windows16(seed, *lo, *hi, |b| judge_d2(b, false, &mut t, l, &|| json!({"dir": 2, "hex": hex::enc(b), "seed": tag})));
+        flush(t, "f5", l);
+    });
+
+    if std::env::var("C02_TIMING").is_ok() { eprintln!("t before large {:.1}", ctx.elapsed_s()); }
+    // f3L: structure-aware single edits of large seeds (17 KiB .. 64 KiB)
+    let large = ext::large_seeds(&al, if thorough { &[0, 1, 2] } else { &[0] });
+    ctx.set("d2_large_seeds", json!(large.iter().map(|s| json!({"tag": s.tag, "len": s.bytes.len()})).collect::<Vec<_>>()));
+    // offsets edited: thorough = every offset of the 17 KiB seed; otherwise the regions where the
+    // position matters: the first 256 octets, 0x3f80..0x4080 (14-bit pointer limit), the last 256
+    let mut litems: Vec<(usize, usize, usize)> = vec![];
+    for (k, s) in large.iter().enumerate() {
+        let n = s.bytes.len();
+        let regions: Vec<(usize, usize)> = if thorough && k == 0 { vec![(0, n)] } else { vec![(0, 256), (0x3f80, 0x4080.min(n)), (n - 256, n)] };
+        for (lo, hi) in regions {
+            let mut a = lo;
+            while a < hi {
+                litems.push((k, a, (a + 64).min(hi)));
+                a += 64;
+            }
+        }
+    }
+    ctx.set("d2_large_offsets", json!(litems.iter().map(|x| x.2 - x.1).sum::<usize>()));
+    ctx.par_run(litems.len() as u64, 1, |i, l| {
+        let (k, lo, hi) = litems[i as usize];
+        let s = &large[k];
+        ctx.watch(l.worker, || format!("large {} {lo}..{hi}", s.tag));
+        let mut t = Tally::default();
+        if lo == 0 {
+            let mut ok = Tally::default();
+            judge_d2(&s.bytes, true, &mut ok, l, &|| json!({"dir": 2, "large": s.tag, "thorough": thorough, "edit": {"kind": "none"}}));
+            if ok.ok == 1 {
+                l.outcome("d2:large:seed-roundtrip-ok");
+            }
+        }
+        ext::large_edits_range(&s.bytes, lo, hi, thorough, |b, what| {
+            judge_d2(b, false, &mut t, l, &|| json!({"dir": 2, "large": s.tag, "thorough": thorough, "edit": what}))
+        });
+        flush(t, "large", l);
+    });
+
+    if std::env::var("C02_TIMING").is_ok() { eprintln!("t before f4 {:.1}", ctx.elapsed_s()); }
     // f4: growth families
     let mut gitems: Vec<(&'static str, bool, u32)> = vec![];
     for f in families::GROWTH_FAMILIES.iter() {
@@ -1020,7 +1172,7 @@ fn main() {
     });
 
     // vacuity
-    for k in ["d1:ok:compressed", "d1:ok:plain", "d2:f1:roundtrip-ok", "d2:f2:roundtrip-ok", "d2:f3:roundtrip-ok", "d2:f4:roundtrip-ok", "d2:f3:seed-roundtrip-ok", "d2:f3:rejected-by-decoder"] {
+    for k in ["d2:f5:roundtrip-ok", "d2:f5:rejected-by-decoder", "d2:large:roundtrip-ok", "d2:large:rejected-by-decoder", "d2:large:seed-roundtrip-ok", "d1:ok:compressed", "d1:ok:plain", "d2:f1:roundtrip-ok", "d2:f2:roundtrip-ok", "d2:f3:roundtrip-ok", "d2:f4:roundtrip-ok", "d2:f3:seed-roundtrip-ok", "d2:f3:rejected-by-decoder"] {
         if ctx.outcome_count(k) == 0 {
             ctx.machinery_failure(&format!("vacuous run: outcome class {k} never occurred"));
         }
